@@ -114,6 +114,9 @@ structure Gen where
   upSub : Bool := false
   /-- the upstream teardown has run -/
   upTorn : Bool := false
+  /-- the downstream subscriber whose Subscribe created this generation: the source is subscribed with THAT subscriber's
+      context (`source.SubscribeWithContext(subscriberCtx, proxy)`, operator_connectable.go:160-165) — C09 -/
+  creator : Nat := 0
 deriving Repr, Inhabited
 
 structure DSub where
@@ -365,7 +368,7 @@ def needsNew (s : St) : Bool := s.subject.isNone || s.sourceSubscription.isNone
 def r1 (cfg : Cfg) (s : St) : St :=
   if needsNew s then
     { s with refCount := s.refCount + 1,
-             gens := (fun k => if k = s.ngens then { subj := Subj.new cfg.conn } else s.gens k), ngens := s.ngens + 1,
+             gens := (fun k => if k = s.ngens then { subj := Subj.new cfg.conn, creator := s.nsubs - 1 } else s.gens k), ngens := s.ngens + 1,
              subject := some s.ngens, sourceSubscription := some s.ngens }
   else { s with refCount := s.refCount + 1 }
 
